@@ -420,6 +420,12 @@ Definition square (n : Z) (m : list (list Z)) : Prop :=
 (* number of entries x of l with p x *)
 Definition cntf (p : Z -> bool) (l : list Z) : Z := Z.of_nat (length (filter p l)).
 
+(* number of off-diagonal non-zero cells of row v / of the whole adjacency (directed edge count) *)
+Definition zsum (l : list Z) : Z := fold_right Z.add 0 l.
+Definition row_deg (n : Z) (adj : list (list Z)) (v : Z) : Z :=
+  cntf (fun w => negb (get2 adj v w =? 0) && negb (w =? v)) (zrange n).
+Definition nnz_off (n : Z) (adj : list (list Z)) : Z := zsum (map (row_deg n adj) (zrange n)).
+
 (* island of a dof / of a constraint row as the mapping kernels see it, and the row's category
    (0 equality, 1 friction, 2 everything else) *)
 Definition dof_isl (dof_tree tree_island : list Z) (d : Z) : Z := getZ tree_island (getZ dof_tree d).
